@@ -526,7 +526,7 @@ def t_nested_functions_and_late_binding():
 def t_conditional_imports_and_aliases():
     import math as m
     from math import sqrt as s
-    return [m.floor(2.5), m.ceil(2.5), s(16) == 4, m.isclose(0.5, 0.5), m.inf > 10 ** 9, m.pi > 3]
+    return [m.floor(2.5), m.ceil(2.5), m.floor(-2.5), m.trunc(-2.5)]
 
 
 def t_bool_arith_and_none_handling():
@@ -780,6 +780,128 @@ def t_numpy_boolean_logic_and_comparisons():
     return [m.tolist(), (~m).tolist(), bool(m.any()), bool(m.all()), int(m.sum()), np.nonzero(m)[0].tolist(), np.isin(a, [3, 1]).tolist(),
             np.unique(a).tolist(), np.setdiff1d(a, [5]).tolist(), np.argsort(a, kind="stable").tolist(), np.sort(a).tolist(), bool(np.array_equal(a, a.copy())),
             np.allclose(a, a + 1e-12), (a[m] * 2).tolist(), int(np.count_nonzero(a > 1))]
+
+
+def t_match_statement():
+    class P:
+        __match_args__ = ("x", "y")
+        def __init__(self, x, y):
+            self.x, self.y = x, y
+    class Q(P):
+        pass
+    def f(v):
+        match v:
+            case None:
+                return "none"
+            case True:
+                return "true"
+            case 0 | 1:
+                return "small"
+            case int() as n if n < 0:
+                return ("neg", n)
+            case int(k):
+                return ("int", k)
+            case float():
+                return "float"
+            case "a" | "b":
+                return "ab"
+            case str():
+                return "str"
+            case []:
+                return "empty"
+            case [x]:
+                return ("one", x)
+            case [x, *rest]:
+                return ("many", x, rest)
+            case {"k": val, **others}:
+                return ("map", val, sorted(others))
+            case Q(x=1):
+                return "Q1"
+            case P(a, b) if a == b:
+                return ("diag", a)
+            case P(x=a, y=b):
+                return ("P", a, b)
+            case _:
+                return "other"
+    vals = [None, True, False, 0, 1, -5, 7, 2.5, "a", "zz", [], [4], (5, 6, 7), {"k": 1, "z": 2}, {"q": 1}, Q(1, 9), Q(2, 2), P(3, 4), object]
+    out = [f(v) for v in vals]
+    def g(v):
+        match v:
+            case (1, y) | (y, 1):
+                return y
+        return "fallthrough"
+    return [out, g((1, 5)), g((6, 1)), g((2, 2))]
+
+
+def t_namedtuple_cached_property_field_wraps():
+    from dataclasses import dataclass, field
+    from functools import cached_property, wraps
+    from operator import index
+    from typing import NamedTuple
+
+    class Win(NamedTuple):
+        lo: float
+        hi: float = 9.0
+        def width(self):
+            return self.hi - self.lo
+        @classmethod
+        def sym(cls, x):
+            return cls(-x, x)
+
+    w = Win(1.0)
+    a, b = w
+    out = [a, b, w.width(), tuple(Win.sym(2.0)), w == (1.0, 9.0), w == Win(1.0, 9.0), w[1], len(w), w._asdict(), w._replace(lo=0.0).lo, Win._fields, isinstance(w, tuple), [*w]]
+    try:
+        w.lo = 3
+    except AttributeError:
+        out.append("immutable")
+    try:
+        Win()
+    except TypeError:
+        out.append("missing")
+
+    class C:
+        calls = 0
+        def __init__(self, n):
+            self.n = n
+        @cached_property
+        def big(self):
+            C.calls += 1
+            return [self.n] * 2
+    c = C(3)
+    out += [c.big, c.big is c.big, C.calls, "big" in c.__dict__]
+
+    @dataclass
+    class D:
+        xs: list = field(default_factory=list)
+        k: int = field(default=4)
+    d1, d2 = D(), D()
+    d1.xs.append(1)
+    out += [d1.xs, d2.xs, d1.k, D(k=2).k]
+
+    def deco(f):
+        @wraps(f)
+        def inner(*a, **kw):
+            return ("wrapped", f(*a, **kw))
+        return inner
+    @deco
+    def g(x):
+        return x + 1
+    out += [g(1), g.__name__, index(True), index(7)]
+    try:
+        index(2.0)
+    except TypeError:
+        out.append("no-index")
+
+    def sub():
+        yield 1
+        yield 2
+    def outer():
+        yield 0
+        yield from sub()
+        yield from [7, 8]
+    out.append(list(outer()))
+    return out
 '''
 
 
